@@ -6,6 +6,7 @@ not_applicable with the reason they are not claimed yet.
 """
 
 READY = {}
+HOOK_COMMITS = ["b167d7763"]
 
 
 def reg(pid, level, text, note, technique, design_ref=None):
